@@ -162,7 +162,7 @@ theorem step_sound {m m' : Mon} {L : Ledger} {e : Ev} (h : Rel m L) (hs : m.step
       rcases relS_cases (h5 sid) with ⟨a, b, c⟩ | ⟨w, c, s0, a, b, d, e⟩
       · simp only [a, Except.ok.injEq] at hs
         subst hs
-        refine ⟨fun _ => b, h1, h2, h3, by simp [h4], ?_⟩
+        refine ⟨fun _ => b, h1, h2, h3, by simp, ?_⟩
         intro j
         simp only [tget_cons]
         by_cases hj : sid = j
